@@ -180,9 +180,17 @@ func zero(t types.Type) value {
 // mk creates a symbolic value, naming large terms so that term text stays small.
 func (in *Interp) mk(k sortKind, w int, text string) *sym {
 	if len(text) > 160 {
-		in.solver.nname++
-		name := fmt.Sprintf("t!%d", in.solver.nname)
-		in.solver.Send(fmt.Sprintf("(define-fun %s () %s %s)", name, sortText(k, w), text))
+		// name large terms once per path (identical terms get the identical name)
+		if in.termNames == nil {
+			in.termNames = map[string]string{}
+		}
+		name, ok := in.termNames[text]
+		if !ok {
+			in.solver.nname++
+			name = fmt.Sprintf("t!%d", in.solver.nname)
+			in.solver.Send(fmt.Sprintf("(define-fun %s () %s %s)", name, sortText(k, w), text))
+			in.termNames[text] = name
+		}
 		text = name
 	}
 	return &sym{k: k, w: w, t: text}
@@ -352,7 +360,21 @@ func (in *Interp) binop(op token.Token, tx, ty types.Type, x, y value) value {
 		}
 		_ = xs
 		_ = ys
+		if r, ok := in.byteBinop(op, w, x, y); ok {
+			return r
+		}
 		a, b := bvOf(x, w), bvOf(y, w)
+		if a == b {
+			// syntactically identical terms
+			switch op {
+			case token.EQL, token.LEQ, token.GEQ:
+				return true
+			case token.NEQ, token.LSS, token.GTR:
+				return false
+			case token.SUB, token.XOR:
+				return uint64(0)
+			}
+		}
 		bv := func(f string) value { return in.mk(sBV, w, "("+f+" "+a+" "+b+")") }
 		bl := func(f string) value { return in.mk(sBool, 0, "("+f+" "+a+" "+b+")") }
 		switch op {
@@ -594,6 +616,9 @@ func (in *Interp) shift(op token.Token, w int, signed bool, ty types.Type, x, y 
 			} else {
 				return uint64(0)
 			}
+		}
+		if r, ok := in.byteShift(op, w, signed, x, yu); ok {
+			return r
 		}
 		f := "bvshl"
 		if op == token.SHR {
@@ -847,6 +872,11 @@ func (in *Interp) conv(tdst, tsrc types.Type, x value) value {
 			return trunc(u, wd)
 		}
 		s := x.(*sym)
+		if wd != ws {
+			if r, ok := in.byteConv(wd, ws, sSigned, x); ok {
+				return r
+			}
+		}
 		switch {
 		case wd == ws:
 			return s
